@@ -72,6 +72,17 @@ PROPS = {
         "trusted": ["Go panics are observed by recover() in the harness and reported as the reply PANIC (never produced by the model)"],
         "assumptions": ["the architecture-without-tables case is reached through arch.GetInfo (C12/C19), not through Policy.Assemble on this host"],
     },
+    "C08": {
+        "lean": ["Seccomp.Proofs.C08"],
+        "streams": [{"stream": "raw", "profile": "mix", "quick": 2000, "thorough": 50000, "thorough_seeds": 2},
+                    {"tool": "vprobe", "stream": "kernel", "profile": "decide", "quick": 60, "thorough": 1500, "thorough_seeds": 2, "args": ["-profile", "decide"]},
+                    {"tool": "vprobe", "stream": "kernel", "profile": "verifier", "quick": 60, "thorough": 1500, "thorough_seeds": 2, "args": ["-profile", "verifier"]},
+                    {"tool": "vprobe", "stream": "kernel", "profile": "load", "quick": 20, "thorough": 300, "args": ["-profile", "load"]}],
+        "trusted": CBPF_TRUST + ["the kernel's classic-BPF interpreter, checker and action handling (Model/Raw.lean: runRaw, kernelAccepts; Proofs/C08.lean: outcome) are modelled, not verified; validated against the running kernel (6.18) on every run",
+                                 "x/net bpf.Assemble for the four instruction kinds is modelled by `encode` (raw stream: exact equality)"],
+        "assumptions": ["decisions are observed for harmless probe syscalls only (they ignore their registers), on x86_64, on the host kernel",
+                        "kill_thread / trap / trace actions are covered at model level (outcome_classes) but not exercised live (a killed runtime thread hangs a Go child)"],
+    },
     "C09": {
         "lean": ["Seccomp.Proofs.C09"],
         "streams": [{"tool": "vprobe", "stream": "kernel", "profile": "load", "quick": 60, "thorough": 1500, "thorough_seeds": 2, "args": ["-profile", "load"]}],
